@@ -318,6 +318,11 @@ class Solver:
     def available(self):
         return self._available
 
+    def copy(self):
+        c = Solver(self.world, self.name, self._available)
+        c.msg, c.timeLimit = self.msg, self.timeLimit
+        return c
+
     def __repr__(self):
         return f"<solver {self.name}>"
 
